@@ -424,6 +424,19 @@ def gen_fit_inputs(rng, n, max_N=(6, 4, 3), combos=None):
                 break
         else:
             continue
+        hooks = rng.choice([None, None, {"solver_nbatch": 2}])
+        if k % 4 == 1:
+            # "remainder atom batch" stream: an odd number of atoms (5 or 7) and 2 or 3 atom batches, so that the last
+            # atom batch is SHORTER than the others (5 = 2+2+1, 7 = 3+3+1 / 2+2+2+1)
+            for _ in range(200):
+                cr2 = crystal(rng, max_N=7, min_N=5, protos=["sc", "bcc_prim", "fcc_prim", "hex1", "cscl"],
+                              allow_random=rng.random() < 0.5)
+                if len(cr2.numbers) in (5, 7):
+                    sz2 = _basis_sizes(cr2, orders, None)
+                    if all(v > 0 for v in sz2.values()) and sum(sz2.values()) < 400:
+                        cr, sizes = cr2, sz2
+                        hooks = {"solver_nbatch": rng.choice([2, 3])}
+                        break
         N = len(cr.numbers)
         nb = sum(sizes.values())
         n_snap = int(np.ceil(3.0 * nb / (3 * N))) + 4
@@ -433,7 +446,7 @@ def gen_fit_inputs(rng, n, max_N=(6, 4, 3), combos=None):
             n_snap = max(n_snap, rng.choice([101, 130, 137]))
         yield {"crystal": cr, "orders": list(orders), "n_snap": n_snap, "data_seed": rng.randrange(10 ** 6),
                "compact": rng.random() < 0.5, "batch_size": rng.choice([None, 1, 3, 7]),
-               "hooks": rng.choice([None, None, {"solver_nbatch": 2}])}
+               "hooks": hooks}
 
 
 # ------------------------------------------------------------------ C07 cutoff
